@@ -350,12 +350,30 @@ def executemany_sets(k: int, n: int) -> bool:
 
 
 # ------------------------------------------------------------------ equal-comparing values of different Python types keep their own literals
-TYPED = [True, 1, False, 0, None, "1", "TRUE", "", 10, "10"]
-TYPED_LIT = ["TRUE", "1", "FALSE", "0", "NULL", "'1'", "'TRUE'", "''", "10", "'10'"]
+import datetime as _dt  # noqa: E402
+from decimal import Decimal as _D  # noqa: E402
+
+TYPED = [True, 1, False, 0, None, "1", "TRUE", "", 1.0, 0.0, -0.0, _D("1"), _D("1.00"), _D("0"), 1.5, _D("1.5"), _dt.date(2020, 1, 2), "2020-01-02", b"1", 10]
+
+
+def _own_literal(v) -> str:
+    """The connector's client-side literal for ONE value, computed in isolation with a fresh converter (the oracle)."""
+    c = snowflake.connector.converter.SnowflakeConverter()
+    return c.quote(c.escape(c.to_snowflake(v)))
 
 
 def _typed(i0: int, i1: int, i2: int, as_dict: bool, reuse: bool) -> bool:
-    duck, conn, cur = _cursor()
+    import snowflake.connector as sc
+
+    import fakesnow.conn as fc
+
+    saved = sc.paramstyle
+    sc.paramstyle = "pyformat"
+    try:
+        conn = fc.FakeSnowflakeConnection(LogDuck(), database="DB1", schema="S1")
+    finally:
+        sc.paramstyle = saved
+    cur = conn.cursor()  # real converter, real type dispatch: every value here is concrete
     idx = [i0, i1, i2]
     if reuse:
         # an earlier statement on the same cursor bound the first value already
@@ -364,22 +382,22 @@ def _typed(i0: int, i1: int, i2: int, as_dict: bool, reuse: bool) -> bool:
         text, rest = cur._rewrite_with_params("select %(a)s, %(b)s, %(c)s", {"a": TYPED[i0], "b": TYPED[i1], "c": TYPED[i2]})
     else:
         text, rest = cur._rewrite_with_params("select %s, %s, %s", tuple(TYPED[i] for i in idx))
-    return rest is None and text == "select " + ", ".join(TYPED_LIT[i] for i in idx)
+    return rest is None and text == "select " + ", ".join(_own_literal(TYPED[i]) for i in idx)
 
 
 @ob(
     "C08.values_keep_the_literal_of_their_own_type",
     encodes=["fakesnow.cursor.FakeSnowflakeCursor._rewrite_with_params", "SnowflakeConverter.to_snowflake/escape/quote (real, real dispatch: concrete values)"],
-    bounds="three parameters drawn by symbolic index from {True, 1, False, 0, None, '1', 'TRUE', '', 10, '10'} (values that compare or hash equal across "
-    "types), tuple or dict binding, with or without an earlier statement on the same cursor that bound the first value: each is written as the literal "
+    bounds="three parameters drawn by symbolic index from 20 values that compare or hash equal across types (True / 1 / 1.0 / Decimal('1') / "
+    "Decimal('1.00') / '1', False / 0 / 0.0 / -0.0 / Decimal('0'), None, '', 1.5 / Decimal('1.5'), a date and its text, bytes), tuple or dict binding, with or without an earlier statement on the same cursor that bound the first value: each is written as the literal "
     "of its own type",
     timeout=(300, 600),
-    shards=(10, 10),
+    shards=(20, 20),
 )
 def typed_values(i0: int, i1: int, i2: int, as_dict: bool, reuse: bool) -> bool:
     """
-    pre: 0 <= i0 < 10 and 0 <= i1 < 10 and 0 <= i2 < 10 and (SHARD < 0 or i0 == SHARD)
+    pre: 0 <= i0 < 20 and 0 <= i1 < 20 and 0 <= i2 < 20 and (SHARD < 0 or i0 == SHARD)
     post: _
     """
     P = fast.pick
-    return done(fast.native(_typed, P(i0, 10), P(i1, 10), P(i2, 10), bool(P(as_dict, 2)), bool(P(reuse, 2))))
+    return done(fast.native(_typed, P(i0, 20), P(i1, 20), P(i2, 20), bool(P(as_dict, 2)), bool(P(reuse, 2))))
